@@ -56,11 +56,15 @@ def make_inputs(ctx, d, n_good, bad_kinds, rng, confs=(2, 3)):
         for j, pn in zip(rng.sample(range(n_good), k2), rng.sample(PROTO_NAMES, k2)):
             names[j] = pn
     out = []
+    stem_collide = n_good >= 2 and rng.random() < 0.4
     for k in range(n_good):
         tag, base = multi[(k + rng.randrange(len(multi))) % len(multi)]
-        nm = names[k] if (rng.random() < 0.7 or names[k] in PROTO_NAMES) else '%s%d' % (PG.mol_name(base), k) + 'x'
+        nm = names[k] if (rng.random() < 0.7 or names[k] in PROTO_NAMES or stem_collide) else '%s%d' % (PG.mol_name(base), k) + 'x'
         mol = PG.make_mol(base, rng.choice(confs), nm)
         fn = os.path.join(d, 'in%d_%s.sdf%s' % (k, tag, rng.choice(['', '.bz2', '.gz'])))
+        if stem_collide and '/' not in names[(k + 1) % n_good]:
+            # the FILE is called after ANOTHER molecule of the batch: outputs are named after molecules, never after files
+            fn = os.path.join(d, '%s.sdf%s' % (names[(k + 1) % n_good], rng.choice(['', '.bz2', '.gz'])))
         mol_to_sdf(mol, fn)
         out.append({'path': fn, 'kind': 'good', 'name': nm, 'mol': mol_from_sdf(fn), 'tag': tag})
     for k, kind in enumerate(bad_kinds):
